@@ -193,7 +193,7 @@ sys.exit(0 if ok else 1)
 '''
 
 
-def extra_checks(tier, seed, replay_dir):
+def extra_checks(tier, seed, replay_dir, active_kf=()):
     """Engine E2 (engine/fpsym.py): the precision grid of Random.random_float, exact IEEE-754 doubles.
     Runs in a child process under the overlay interpreter so that z3 and the current d42 are importable."""
     import json
